@@ -6,6 +6,7 @@ import json
 import re
 import subprocess
 import sys
+import time
 from fractions import Fraction
 from pathlib import Path
 
@@ -309,10 +310,10 @@ def gen_cases(ctx, widened=False):
                 c['scale'] = list(sc)
                 c['meta'] = dict(c['meta'], scale='%d/%d' % sc)
         cases.append(c)
-    # single cells = face-table probes through the public API: the facet mesh of one cell is the table
+    # single cells = translator validation / face-table probes through the public API (all 8 affine maps): the facet mesh of one cell is the table
     # applied to its row (np.unique row order), node order and orientation compared exactly by check_facets
     for kind in ['hex', 'tet']:
-        for aff in (c10_gen.AFFINE if widened else c10_gen.AFFINE[:3]):
+        for aff in c10_gen.AFFINE:
             for rep in range(3 if widened else 1):
                 kw = {'id_mode': ['sparse', 'large', 'huge'][rep]} if widened else {}
                 m = c10_gen.gen_mesh(rng, kind=kind, dims=(1, 1, 1), affine=aff, **kw)
@@ -365,6 +366,19 @@ def gen_cases(ctx, widened=False):
             c['move'] = {'kind': 'assign', 'coords': [p for _, p in mv], 'map': name}
             c['moved_nodes'] = mv
         c['meta'] = dict(c['meta'], same_object=c['move']['kind'])
+        cases.append(c)
+    # size stream (checklist 4): meshes far larger than what is evaluated inside Coq — hundreds of cells in
+    # quick, > 8 192 listed faces in thorough — judged by the exact property oracle on the implementation only
+    # (a size-dependent fast path in the id look-ups / duplicate removal / sparse products shows up here)
+    big = [('hex', (9, 9, 9)), ('tet', (6, 5, 5))] if ctx.tier == 'quick' else \
+        [('hex', (14, 14, 14)), ('tet', (10, 10, 10)), ('hex', (9, 8, 8)), ('tet', (6, 5, 5))]
+    for j, (kind, dims) in enumerate(big):
+        m = c10_gen.gen_mesh(rng, kind=kind, dims=dims, max_elems=10 ** 6, warp=[None, 'frustum'][j % 2])
+        c = {'nodes': m['nodes'], 'blocks': m['blocks'], 'meta': dict(m['meta'], size='large'), 'valid': True,
+             'skip_coq': True}
+        if j % 2 == 1:
+            c['scale'] = [1, 1000]
+            c['meta']['scale'] = '1/1000'
         cases.append(c)
     # second stream: one inverted element — model and implementation must still agree
     for k in range((12 if widened else 6) if ctx.tier == 'quick' else 60):
@@ -454,6 +468,7 @@ def signature(case, check):
     return {'check': check, 'kind': case['meta'].get('kind'), 'warp': case['meta'].get('warp'),
             'types': sorted(case['blocks']), 'scale': case['meta'].get('scale', '1'),
             'offset': case['meta'].get('offset', '0'), 'dtype': case['meta'].get('dtype'),
+            'size': case['meta'].get('size', 'small'),
             'history': case['meta'].get('same_object', 'single_call')}
 
 
@@ -511,10 +526,11 @@ def main(ctx):
     # about them, and the correspondence is widened; only a disagreement / a failing input is a violation.
     tie_ok = True
     gen_file = lib.COQ / 'C10' / 'gen' / 'FaceTables.v'
+    tables_text = None
     try:
         tr, consumed = c10_tables.translate(str(lib.REPO))
         ctx.sources = consumed
-        lib.write_if_changed(gen_file, c10_tables.emit(tr))
+        tables_text = c10_tables.emit(tr)
         ctx.notes['tie_tables'] = 'T (face tables re-translated from the tree under test)'
     except (c10_tables.TranslateError, SyntaxError, OSError, RecursionError, ValueError, KeyError, TypeError,
             AttributeError, IndexError) as e:
@@ -529,15 +545,29 @@ def main(ctx):
     if not tie_ok:
         for baseline in BASELINES:
             if baseline.exists():
-                lib.write_if_changed(gen_file, baseline.read_text())
+                tables_text = baseline.read_text()
                 ctx.notes['baseline_tables'] = str(baseline.relative_to(lib.VERIF))
                 fallback = True
                 break
     proof_ok = False
+    model_ok = False
     if tie_ok or fallback:
-        proof_ok, log = ctx.build_props('C12/Props.v', extra_targets=['C12/Corr.vo'],
-                                        scan_dirs=[lib.COQ / 'C12', lib.COQ / 'C10'])
-        proof_ok = c10.fix_obligations(ctx) and bool(ctx.obligations)
+        # coq/C10/gen/FaceTables.v is shared with the check of C10: a run of either check on ANOTHER tree
+        # (seed / benign tests run concurrently) may overwrite it between our write and our build.  That is
+        # not a property of the tree under test: when the file no longer holds what we wrote, write and
+        # build again.
+        for attempt in range(4):
+            lib.write_if_changed(gen_file, tables_text)
+            ctx.obligations.clear()
+            proof_ok, log = ctx.build_props('C12/Props.v', extra_targets=['C12/Corr.vo'],
+                                            scan_dirs=[lib.COQ / 'C12', lib.COQ / 'C10'])
+            proof_ok = c10.fix_obligations(ctx) and bool(ctx.obligations)
+            model_ok, _, _ = lib.coq_make(['C12/Corr.vo'])
+            disturbed = gen_file.read_text() != tables_text or 'inconsistent assumptions' in log
+            if (proof_ok and model_ok) or not disturbed:
+                break
+            ctx.log('generated tables were overwritten by a concurrent run on another tree: building again')
+            time.sleep(5 + 10 * attempt)
         if not proof_ok:
             ctx.notes['build_log_tail'] = log[-1500:]
         if fallback:
@@ -548,7 +578,6 @@ def main(ctx):
         for n in lib.theorem_names(lib.COQ / 'C12' / 'Props.v'):
             ctx.obligations.append({'name': n, 'discharged': False, 'assumptions': [],
                                     'note': 'translator failed closed, no baseline'})
-    model_ok, _, _ = lib.coq_make(['C12/Corr.vo']) if (tie_ok or fallback) else (False, '', 0)
 
     cases = []
     cdir = lib.VERIF / 'corpus' / PID
@@ -575,6 +604,7 @@ def main(ctx):
         ctx.count('ids:' + str(meta.get('id_mode')))
         ctx.count('affine:' + str(meta.get('affine')))
         ctx.count('stream:' + ('valid' if c['valid'] else meta.get('malformed', 'invalid')))
+        ctx.count('size:' + str(meta.get('size', 'small')))
         if meta.get('single_cell'):
             ctx.count('single_cell_table_probe:' + str(meta.get('kind')))
         inc = res[c['id']].get('incidence')
@@ -601,9 +631,25 @@ def main(ctx):
 
     failing = {}
     if model_ok:
-        failing = run_coq_cases(ctx, cases, res, 'Corr')
-        ctx.corr = {'cases': len(cases), 'checks_per_case': CHECKS, 'disagreements': len(failing)}
-        ctx.log(f'correspondence: {len(cases)} cases, {len(failing)} with a failing check')
+        coq_cases = [c for c in cases if not c.get('skip_coq')]
+        failing = run_coq_cases(ctx, coq_cases, res, 'Corr')
+        for attempt in range(3):
+            broken = [c for c in coq_cases if c['id'] in failing and failing[c['id']] is None]
+            if not broken:
+                break
+            # a scratch file that does not compile: either a malformed literal (stays broken) or the .vo files
+            # were rebuilt under us by a concurrent run on another tree (see above): rebuild ours and retry
+            lib.write_if_changed(gen_file, tables_text)
+            ok2, _, _ = lib.coq_make(['C12/Corr.vo'])
+            if not ok2:
+                break
+            ctx.log(f'{len(broken)} cases in scratch files that did not compile: rebuilt, evaluating them again')
+            for c in broken:
+                del failing[c['id']]
+            failing.update(run_coq_cases(ctx, broken, res, 'CorrRetry%d' % attempt))
+        ctx.corr = {'cases': len(coq_cases), 'checks_per_case': CHECKS, 'disagreements': len(failing),
+                    'oracle_only_large_meshes': len(cases) - len(coq_cases)}
+        ctx.log(f'correspondence: {len(coq_cases)} cases, {len(failing)} with a failing check')
     else:
         ctx.corr = {'cases': 0, 'disagreements': 0, 'note': 'model did not build'}
 
